@@ -365,6 +365,86 @@ class CloudRainLayout(object):
         return np.asarray(data, dtype='f')
 
 
+class LatBndLayout(object):
+    """CAMx lateral boundary file (user's guide, "boundary conditions file"):
+      1 [name 10c][note 60c] itzon nspec ibdate btime iedate etime
+      2 plon plat iutm xorg yorg delx dely nx ny nz iproj istag tlat1 tlat2 rdum
+      3 ione ione nx ny
+      4 (species name 10c) * nspec
+      5-8 per edge (west, east, south, north):
+          ione iedge ncell (icell idum idum idum) * ncell
+      per step: ibdate btime iedate etime
+          per species, per edge: ione (name 10c) iedge ((bc(cell,k),k),cell)
+    every record framed by 4-byte big-endian length markers."""
+
+    def __init__(self, nspec, nz, T, nx, ny, date0, time0):
+        self.nspec, self.nz, self.T, self.nx, self.ny = nspec, nz, T, nx, ny
+        self.spcnames = [('SP%d' % i).ljust(10) for i in range(nspec)]
+        self.times = []
+        d, t = date0, time0
+        for i in range(T):
+            t2 = t + 1
+            d2, t2n = (d + 1, t2 - 24) if t2 >= 24 else (d, t2)
+            self.times.append((d, t, d2, t2n))
+            d, t = d2, t2n
+        self.edges = [('WEST', ny), ('EAST', ny), ('SOUTH', nx),
+                      ('NORTH', nx)]
+
+    def _records(self, data):
+        recs = []
+        e = self.times[-1]
+        recs.append(struct.pack(
+            '>10i60iiiifif', *(asc2int('BOUNDARY  ') + asc2int(' ' * 60) + [
+                0, self.nspec, self.times[0][0], float(self.times[0][1]),
+                e[2], float(e[3])])))
+        recs.append(struct.pack('>ffiffffiiiiifff', 0., 0., 0, 0., 0., 1000.,
+                                1000., self.nx, self.ny, self.nz, 0, 0, 0.,
+                                0., 0.))
+        recs.append(struct.pack('>iiii', 1, 1, self.nx, self.ny))
+        spc = []
+        for sn in self.spcnames:
+            spc += asc2int(sn)
+        recs.append(struct.pack('>%di' % len(spc), *spc))
+        nhead = len(recs)
+        for ei, (en, n) in enumerate(self.edges):
+            cells = []
+            for c in range(n):
+                cells += [2 if 0 < c < n - 1 else 0, 0, 0, 0]
+            recs.append(struct.pack('>%di' % (3 + 4 * n), 1, ei + 1, n,
+                                    *cells))
+        self.nstatic = len(recs)
+        for ti in range(self.T):
+            d, t, d2, t2 = self.times[ti]
+            recs.append(struct.pack('>ifif', int(d), float(t), int(d2),
+                                    float(t2)))
+            for si, sn in enumerate(self.spcnames):
+                for ei, (en, n) in enumerate(self.edges):
+                    recs.append(struct.pack('>i', 1) + struct.pack(
+                        '>10i', *asc2int(sn)) + struct.pack('>i', ei + 1) +
+                        data[en][ti, si].astype('>f4').tobytes())
+        return recs
+
+    def write_real(self, path):
+        """encode with struct only; returns {edge: data[T, nspec, ncell, nz]}
+        and the list of record start offsets (plus the file length)"""
+        rng = np.random.RandomState(29)
+        data = dict((en, rng.rand(self.T, self.nspec, n, self.nz)
+                     .astype('f')) for en, n in self.edges)
+        starts = []
+        off = 0
+        with open(path, 'wb') as f:
+            for body in self._records(data):
+                m = struct.pack('>i', len(body))
+                starts.append(off)
+                f.write(m + body + m)
+                off += len(body) + 8
+        self.starts = starts + [off]
+        self.H = starts[self.nstatic]
+        self.B = (off - self.H) // self.T
+        self.length = off
+        return data
+
+
 class SymFile(object):
     """file object with a symbolic position over a reference layout; the
     twin's unpack_from_file asks model_unpack for the values the layout puts
